@@ -1,9 +1,11 @@
 """C06 - soft time limit is raised once, inside the task that exceeded it."""
+from engines import realparts as rp
 from engines import simgen as g
 from engines.simprop import make_execute
 
 LEVEL = 'exploration'
-RULE = ('sim: E1 histories with every combination of pool/per-job soft and hard '
+RULE = ('real: tasks that count SoftTimeLimitExceeded deliveries while running 3.2-4.3 s with soft limit 1 s (pool-level or per job), hard limit None or 12 s. ' 
+        'sim: E1 histories with every combination of pool/per-job soft and hard '
         'limits (soft<hard, soft>=hard, only one, none), 1-15 successive scans '
         'while the job keeps running, READY delivered before/after a scan. '
         'Non-trivial: a job soft-signalled and >=3 scans after, or a READY '
@@ -13,7 +15,8 @@ ASSUMPTIONS = [
     'that it raises SoftTimeLimitExceeded inside the task is checked on real '
     'pools (part real, when built)',
 ]
-SHARDS = {'quick': 4, 'thorough': 16}
+SHARDS = {'quick': 8, 'thorough': 16}
+WALL_LIMIT = {'quick': 1500, 'thorough': 6 * 3600}
 
 
 from hypothesis import strategies as st
@@ -38,9 +41,11 @@ def _nontrivial(labels, sim):
 
 
 execute_sim = make_execute({'c06'}, _nontrivial, prop='C06')
-PARTS = {'sim': execute_sim}
-EXPLORE = {'sim': (sim_cases(), execute_sim)}
+PARTS = {'sim': execute_sim, 'real': rp.execute_c06}
+EXPLORE = {'sim': (sim_cases(), execute_sim), 'real': (rp.c06_cases(), rp.execute_c06)}
 
 
 def run(ctx):
-    ctx.explore('sim', sim_cases(), execute_sim, n=ctx.pick(500, 25000))
+    ctx.explore('sim', sim_cases(), execute_sim, n=ctx.pick(250, 25000))
+    ctx.explore('real', rp.c06_cases(), rp.execute_c06, n=ctx.pick(1, 30),
+                shrink_budget=6)
